@@ -382,7 +382,7 @@ void gen(uint64_t seed, int tier, sim::Plan &p) {
     // the tracer only time-stamps allocations and ignores a failing clock: environments without CLOCK_BOOTTIME (every read fails)
     // or with occasional failures are legal for it
     // systems where backtrace() is unsupported (the tracer falls back to byte counting) or yields very shallow stacks
-    if (r.chance(0.15)) p.cfg["backtrace_mode"] = r.range(1, 3);
+    if (r.chance(0.2)) p.cfg["backtrace_mode"] = r.range(1, 4); // 1 unsupported, 2 one frame, 3 two frames, 4 as deep as the tracer asks for
     if (r.chance(0.15)) p.cfg["p_clockfail_boot"] = r.pick(std::vector<int64_t>{1000000, 1000000, 50000, 300000});
     p.cfg["alloc_move_permille"] = r.pick(std::vector<int64_t>{0, 500, 1000});
     if (r.chance(0.25)) p.cfg["keep_live"] = r.range(1, 4);
